@@ -744,7 +744,11 @@ theorem sim_walk : (s : Stmt) → ∀ (K : Reenter), KOK K → ∀ (P Q : String
   | .block name body => fun K hK P Q rc G bt st top below c hbt _ h =>
       sim_block hK name body (sim_walkList body) st c hbt h
   | .include name => fun K _ P Q rc G bt st top below c _ _ h => by
-      simpa only [walk, exec, visitExpr, vars] using sim_visitLeaves (nvars name) P Q h
+      -- the included template may leave names behind in the top frame: that only binds more
+      have hv := sim_visitLeaves (nvars name) P Q h
+      simp only [walk, exec, visitExpr, vars]
+      exact ⟨fun _ => (hv.inv rfl).mono_top (fun y hy => List.mem_append_right _ hy),
+        fun y hy => List.mem_append_right _ hy, hv.reads, hv.unb⟩
   | .extends name => fun K _ P Q rc G bt st top below c _ _ h => by
       simpa only [walk, exec, visitExpr, vars] using sim_visitLeaves (nvars name) P Q h
   | .importAs e target => fun K _ P Q rc G bt st top below c _ _ h => sim_importAs e target st c h
@@ -778,59 +782,66 @@ theorem sim_walkList : (ss : List Stmt) → BodyOK ss
           (fun x hx => List.mem_of_mem_take hx) rfl
 end
 
+/-- one re-entry request (a running recursive loop, a block of the template) is accounted
+for, whatever handler `K` serves the requests nested inside it -/
+theorem serve_ok {K : Reenter} (hK : KOK K) (P Q : String → Prop) (rc : RC) (G : List Ghost)
+    (bt : BT) (top : Frame) (below : List Frame) (r : Ch) (hbt : Ctx bt P Q)
+    (hrc : RcOK rc G top below P) :
+    ∀ x ∈ serve K rc bt top below r, P x ∧ (bound top below x = false ∨ Q x) := by
+  intro x hx
+  unfold serve at hx
+  split at hx
+  · -- a running recursive loop
+    have hd := hrc.drop r.n
+    split at hx
+    · rename_i atoms body rest heq
+      rw [heq] at hd
+      cases hG : G.drop r.n with
+      | nil => rw [hG] at hd; simp [RcOK] at hd
+      | cons g G' =>
+        rw [hG] at hd
+        obtain ⟨⟨hiB, hrep⟩, _⟩ := hd
+        obtain ⟨hiE, hit2⟩ := loop_entry g atoms hiB
+        have hup : ∀ y, bound top below y = true →
+            bound (bindAtoms ["loop"] (top :: below) atoms).1 (top :: below) y = true :=
+          fun y hy => (bound_cons_iff _ _ _ _).2 (Or.inr hy)
+        have hrc' : RcOK ((atoms, body) :: rest) (g :: G')
+            (bindAtoms ["loop"] (top :: below) atoms).1 (top :: below) P := by
+          have := hrc.drop r.n
+          rw [heq, hG] at this
+          exact this.mono hup (fun _ hp => hp)
+        have hsim := sim_walkList body K hK P Q _ _ bt _ _ _ r.sub0 hbt hrc' hiE
+        rw [List.mem_append] at hx
+        rcases hx with hx | hx
+        · have hsC := step_visitOpt (atoms.foldl trackAtom g.sB) g.filter
+          have hE : Step (atoms.foldl trackAtom g.sB) (walkList (g.sE atoms) body) :=
+            Step.trans (Step.trans hsC (step_assign _ "loop")) (step_walkList body _)
+          exact ⟨hrep x (hE.rep x (hit2 x hx).1), Or.inl (hit2 x hx).2⟩
+        · exact ⟨(hsim.reads x hx).elim (hrep x) id, (hsim.unb x hx).imp unbound_of_push id⟩
+    · cases hx
+  · -- a block of the template
+    split at hx
+    · rename_i body heq
+      have hmem : body ∈ bt := List.mem_of_getElem? heq
+      have hin : Inv [] (top :: below) St.init := by
+        intro y hy; simp [St.init, St.isAssigned] at hy
+      have hsim := sim_walkList body K hK P Q [] [] bt _ _ _ r.sub0 hbt (by simp [RcOK]) hin
+      have hflat : (walkList St.init body).nested = none := (step_walkList body _).nn rfl
+      refine ⟨?_, ?_⟩
+      · rcases hsim.reads x hx with hr | hr
+        · rw [reported_none hflat] at hr
+          exact hbt.qp x (hbt.free body hmem x hr)
+        · exact hr
+      · exact (hsim.unb x hx).imp (fun hr => by rw [bound_push] at hr; exact hr) id
+    · cases hx
+
 /-- re-entries are accounted for, however deeply they nest -/
 theorem kok_reenter : ∀ d, KOK (reenter d)
   | 0 => fun _ _ _ _ _ _ _ _ _ _ x hx => by simp [reenter] at hx
   | d + 1 => fun P Q rc G bt top below reqs hbt hrc x hx => by
       simp only [reenter, List.mem_flatMap] at hx
       obtain ⟨r, _, hx⟩ := hx
-      unfold serve at hx
-      split at hx
-      · -- a running recursive loop
-        have hd := hrc.drop r.n
-        split at hx
-        · rename_i atoms body rest heq
-          rw [heq] at hd
-          cases hG : G.drop r.n with
-          | nil => rw [hG] at hd; simp [RcOK] at hd
-          | cons g G' =>
-            rw [hG] at hd
-            obtain ⟨⟨hiB, hrep⟩, _⟩ := hd
-            obtain ⟨hiE, hit2⟩ := loop_entry g atoms hiB
-            have hup : ∀ y, bound top below y = true →
-                bound (bindAtoms ["loop"] (top :: below) atoms).1 (top :: below) y = true :=
-              fun y hy => (bound_cons_iff _ _ _ _).2 (Or.inr hy)
-            have hrc' : RcOK ((atoms, body) :: rest) (g :: G')
-                (bindAtoms ["loop"] (top :: below) atoms).1 (top :: below) P := by
-              have := hrc.drop r.n
-              rw [heq, hG] at this
-              exact this.mono hup (fun _ hp => hp)
-            have hsim := sim_walkList body (reenter d) (kok_reenter d) P Q _ _ bt _ _ _ r.sub0
-              hbt hrc' hiE
-            rw [List.mem_append] at hx
-            rcases hx with hx | hx
-            · have hsC := step_visitOpt (atoms.foldl trackAtom g.sB) g.filter
-              have hE : Step (atoms.foldl trackAtom g.sB) (walkList (g.sE atoms) body) :=
-                Step.trans (Step.trans hsC (step_assign _ "loop")) (step_walkList body _)
-              exact ⟨hrep x (hE.rep x (hit2 x hx).1), Or.inl (hit2 x hx).2⟩
-            · exact ⟨(hsim.reads x hx).elim (hrep x) id, (hsim.unb x hx).imp unbound_of_push id⟩
-        · cases hx
-      · -- a block of the template
-        split at hx
-        · rename_i body heq
-          have hmem : body ∈ bt := List.mem_of_getElem? heq
-          have hin : Inv [] (top :: below) St.init := by
-            intro y hy; simp [St.init, St.isAssigned] at hy
-          have hsim := sim_walkList body (reenter d) (kok_reenter d) P Q [] [] bt _ _ _ r.sub0
-            hbt (by simp [RcOK]) hin
-          have hflat : (walkList St.init body).nested = none := (step_walkList body _).nn rfl
-          refine ⟨?_, ?_⟩
-          · rcases hsim.reads x hx with hr | hr
-            · rw [reported_none hflat] at hr
-              exact hbt.qp x (hbt.free body hmem x hr)
-            · exact hr
-          · exact (hsim.unb x hx).imp (fun hr => by rw [bound_push] at hr; exact hr) id
-        · cases hx
+      exact serve_ok (kok_reenter d) P Q rc G bt top below r hbt hrc x hx
 
 /-! ### the blocks of a template: their free names are reported -/
 
@@ -916,19 +927,34 @@ theorem blocksL_reported : (ss : List Stmt) → ∀ (st : St), ∀ body ∈ bloc
       · exact blocksL_reported ss _ b hb x hx
 end
 
+/-- the free names of the blocks of a template -/
+def BlockFree (t : List Stmt) : String → Prop :=
+  fun y => ∃ body ∈ blockBodiesL t, y ∈ (walkList St.init body).out
+
+theorem ctx_blockFree (t : List Stmt) : Ctx (blockBodiesL t) (BlockFree t) (BlockFree t) :=
+  ⟨fun _ h => h, fun body hb _ hy => ⟨body, hb, hy⟩⟩
+
+/-- the top-level code of a template entered with ANY frames (nothing is assigned in the
+tracker yet, so the frames may bind whatever they like), any accounted-for handler, either
+mode of the analysis, every execution (failing ones included): every look-up is reported -/
+theorem template_sound_in (K : Reenter) (hK : KOK K) (t : List Stmt) (st0 : St)
+    (h0 : st0.assigned = [[]]) (top : Frame) (below : List Frame)
+    (cs : List Ch) (x : String)
+    (hx : x ∈ (execList K [] (blockBodiesL t) top below cs t).reads) :
+    (walkList st0 t).reported x := by
+  have hinit : Inv top below st0 := by
+    intro y hy; simp [St.isAssigned, h0] at hy
+  have hsim := sim_walkList t K hK (BlockFree t) (BlockFree t) [] [] (blockBodiesL t) st0 top
+    below cs (ctx_blockFree t) (by simp [RcOK]) hinit
+  rcases hsim.reads x hx with h | ⟨body, hb, h⟩
+  · exact h
+  · exact blocksL_reported t st0 body hb x h
+
 /-- the whole template, either mode of the analysis, every execution (failing ones included):
 every look-up is reported -/
 theorem template_sound (t : List Stmt) (st0 : St) (h0 : st0.assigned = [[]])
     (cs : List Ch) (d : Nat) (x : String) (hx : x ∈ reads t cs d) :
-    (walkList st0 t).reported x := by
-  let Q : String → Prop := fun y => ∃ body ∈ blockBodiesL t, y ∈ (walkList St.init body).out
-  have hctx : Ctx (blockBodiesL t) Q Q := ⟨fun _ h => h, fun body hb y hy => ⟨body, hb, hy⟩⟩
-  have hinit : Inv [] [] st0 := by
-    intro y hy; simp [St.isAssigned, h0] at hy
-  have hsim := sim_walkList t (reenter d) (kok_reenter d) Q Q [] [] (blockBodiesL t) st0 [] [] cs
-    hctx (by simp [RcOK]) hinit
-  rcases hsim.reads x hx with h | ⟨body, hb, h⟩
-  · exact h
-  · exact blocksL_reported t st0 body hb x h
+    (walkList st0 t).reported x :=
+  template_sound_in (reenter d) (kok_reenter d) t st0 h0 [] [] cs x hx
 
 end MJ.Meta
